@@ -660,13 +660,36 @@ class ModuleNormalizer:
                     if not (isinstance(l, ast.For) and not l.orelse and len(l.body) == 1):
                         continue
                     tv = {n.id for n in ast.walk(l.target) if isinstance(n, ast.Name)}
-                    if tv & frozen:
-                        continue
                     x = a.targets[0].id
+                    if tv & frozen and x in frozen:
+                        continue
                     inner = l.body[0]
                     cond = None
                     if isinstance(inner, ast.If) and not inner.orelse and len(inner.body) == 1:
                         cond, inner = inner.test, inner.body[0]
+                    if (
+                        cond is None
+                        and (
+                            (isinstance(inner, ast.Expr) and isinstance(inner.value, ast.Call) and isinstance(inner.value.func, ast.Attribute) and inner.value.func.attr == "extend" and isinstance(inner.value.func.value, ast.Name) and inner.value.func.value.id == x and len(inner.value.args) == 1 and not inner.value.keywords)
+                            or (isinstance(inner, ast.AugAssign) and isinstance(inner.op, ast.Add) and isinstance(inner.target, ast.Name) and inner.target.id == x)
+                        )
+                    ):
+                        # `x.extend(E)` per step  ->  `[v for t in it for v in E]`
+                        ext = inner.value.args[0] if isinstance(inner, ast.Expr) else inner.value
+                        if x in _names_used(ext) or x in _names_used(l.iter):
+                            continue
+                        v = "_elt"
+                        comp = ast.ListComp(
+                            elt=ast.Name(id=v, ctx=ast.Load()),
+                            generators=[
+                                ast.comprehension(target=l.target, iter=l.iter, ifs=[], is_async=0),
+                                ast.comprehension(target=ast.Name(id=v, ctx=ast.Store()), iter=ext, ifs=[], is_async=0),
+                            ],
+                        )
+                        new = _relocate(ast.Assign(targets=[ast.Name(id=x, ctx=ast.Store())], value=comp), a)
+                        stmts[i - 1 : i + 1] = [new]
+                        self.log.append(f"{q}: loop extending {x} rewritten as a two-level comprehension")
+                        continue
                     if not (isinstance(inner, ast.Expr) and isinstance(inner.value, ast.Call) and isinstance(inner.value.func, ast.Attribute) and inner.value.func.attr == "append" and isinstance(inner.value.func.value, ast.Name) and inner.value.func.value.id == x and len(inner.value.args) == 1):
                         continue
                     elt = inner.value.args[0]
